@@ -116,9 +116,10 @@ impl Prop for C01P {
                 sec("explicit-programs", tier.pick(24_000, 250_000)),
                 sec("inferred-programs", tier.pick(24_000, 250_000)),
                 sec("perturbed-programs", tier.pick(40_000, 400_000)),
+                sec("near-miss-coercions", tier.pick(30_000, 300_000)),
                 crate::fw::sec_ex("small-programs-exhaustive", crate::gen_small::total_upto(tier.pick(5, 6)).div_ceil(256)),
             ],
-            "every program accepted by tokenize+parse+type_check among: generated explicit and inferred programs (recursive and mutually recursive groups, nested groups, forward references, higher-order and polymorphic functions, type-level computation, omitted annotations and `_`), single-point perturbations of them (whatever the checker lets through is evaluated), the corpus, and every source program of at most 5 (quick) / 6 (thorough) nodes over the full syntax (exhaustive); the elaborated term is stepped up to 4000 (quick) / 20000 (thorough) steps; non-trivial = distinct accepted program that performed at least one step",
+            "every program accepted by tokenize+parse+type_check among: generated explicit and inferred programs (recursive and mutually recursive groups, nested groups, forward references, higher-order and polymorphic functions, type-level computation, omitted annotations and `_`), single-point perturbations and scope-aware edits of them (whatever the checker lets through is evaluated), near-miss coercions (a value passed from a type with type-level computation in it to an edited copy of that type and then used at the other ground type), the corpus, and every source program of at most 5 (quick) / 6 (thorough) nodes over the full syntax (exhaustive); the elaborated term is stepped up to 4000 (quick) / 20000 (thorough) steps; non-trivial = distinct accepted program that performed at least one step",
         );
         p.assumptions = vec!["budget exhaustion means 'keeps running' and counts as held; evaluate() and `gram run` are cross-checked against the driven loop on short runs".into()];
         p.floor_evaluations = 10_000;
@@ -157,6 +158,15 @@ impl Prop for C01P {
                     check_program(ctx, &src, has_source_holes(&h), "small", false);
                 }
             }
+            "near-miss-coercions" => {
+                // a value passed to a near miss of its type and then used at the other ground
+                // type (two cases in three): a checker that equates the two types lets a stuck
+                // program through
+                let mut r = Rng::for_case(ctx.seed, 6, idx);
+                let c = crate::coerce::gen_coercion(&mut r, idx % 3 != 0);
+                let src = print(&c.h, &Style::varied(&mut r), idx).text;
+                check_program(ctx, &src, false, "coercion", false);
+            }
             "perturbed-programs" => {
                 let mut r = Rng::for_case(ctx.seed, 3, idx);
                 let mode = if idx % 2 == 0 { Mode::Explicit } else { Mode::Inferred };
@@ -182,6 +192,11 @@ impl Prop for C01P {
                 let mut r = Rng::for_case(seed, if explicit { 1 } else { 2 }, idx);
                 let p = gen_program(&mut r, if explicit { Mode::Explicit } else { Mode::Inferred });
                 print(&p.h, &Style::varied(&mut r), idx).text
+            }
+            "near-miss-coercions" => {
+                let mut r = Rng::for_case(seed, 6, idx);
+                let c = crate::coerce::gen_coercion(&mut r, idx % 3 != 0);
+                print(&c.h, &Style::varied(&mut r), idx).text
             }
             "perturbed-programs" => {
                 let mut r = Rng::for_case(seed, 3, idx);
